@@ -24,7 +24,9 @@ Expected(ev, k) ==
   ELSE (IF ev.x[k][1] = 0 \/ Denormal(ev.x[k]) THEN {0, Sgn(ev.x[k][1])} ELSE {0, Sgn(ev.x[k][1])})  \* zero or the sign
 N(ev) == Prod(ev.shape)
 Idx(ev) == 1..N(ev)
-TheCode(ev, k) == CHOOSE c \in CodesOf(ev, k) \cap Expected(ev, k) : TRUE
+\* with a zero scale every code explains the output: the zero code is taken then (the code is unobservable)
+TheCode(ev, k) == LET cs == CodesOf(ev, k) \cap Expected(ev, k) IN
+                  IF ev.s[k][1] = 0 /\ 0 \in cs THEN 0 ELSE CHOOSE c \in cs : TRUE
 
 ElementClauses(ev) ==
   IF \E k \in Idx(ev) : CodesOf(ev, k) = {} THEN <<"code_not_in_alphabet">>
